@@ -70,6 +70,19 @@ CLAIMED = {
             "N, A, DATA length, padding and END_STREAM are solver variables; the verdict "
             "(accepted iff total == N, bodiless responses refused iff payload > 0) is compared on "
             "every path.", "7/C16"),
+    'C06': ("catalogue of witness histories (native BFS to closure on the one-stream slice) + one "
+            "symbolic step per entry and operation under CrossHair/z3; outcome class compared "
+            "with an independent RFC 7540 5.1 tracker/oracle; library stream state compared "
+            "with the tracker; successor-in-catalogue closure check",
+            "Every catalogue entry x every operation of the alphabet with symbolic numeric "
+            "arguments; when the catalogue is closed (thorough tier, one-stream slice) every "
+            "finite history over that slice ends in a checked entry.  Push / two-stream / "
+            "upgrade slices are depth-bounded (depth in evidence).", "7/C06"),
+    'C07': ("same catalogue + symbolic step engine, peer-frame alphabet only; an event-grammar "
+            "monitor that sees only returned event objects decides the per-stream message "
+            "grammar, role rule and related-event fields",
+            "All peer frames (legal or not) from every catalogue entry; monitor state is part of "
+            "the catalogue key, so closure covers monitor states too.", "7/C07"),
 }
 
 NOT_YET = {}
